@@ -33,6 +33,14 @@ func init() {
 	for k, v := range map[string]externalFn{
 		"(reflect.Value).Bool":         ext۰reflect۰Value۰Bool,
 		"(reflect.Value).CanAddr":      ext۰reflect۰Value۰CanAddr,
+		"(reflect.Value).CanSet":       ext۰reflect۰Value۰CanAddr,
+		"(reflect.Value).Addr":         ext۰reflect۰Value۰Addr,
+		"(reflect.Value).SetInt":       ext۰reflect۰Value۰SetInt,
+		"(reflect.Value).SetUint":      ext۰reflect۰Value۰SetUint,
+		"(reflect.Value).SetFloat":     ext۰reflect۰Value۰SetFloat,
+		"(reflect.Value).SetBool":      ext۰reflect۰Value۰SetBool,
+		"(reflect.Value).SetString":    ext۰reflect۰Value۰SetString,
+		"(reflect.Value).SetBytes":     ext۰reflect۰Value۰SetBytes,
 		"(reflect.Value).CanInterface": ext۰reflect۰Value۰CanInterface,
 		"(reflect.Value).Elem":         ext۰reflect۰Value۰Elem,
 		"(reflect.Value).Field":        ext۰reflect۰Value۰Field,
